@@ -20,6 +20,7 @@ from sim.core import Outcome, Log, RealCodeError
 
 from pylife.core.broadcaster import Broadcaster
 import pylife.materiallaws.woehlercurve  # noqa: registers the accessor
+import pylife.stress.collective  # noqa: registers the load_collective accessor
 
 NAME = "operands"
 
@@ -313,6 +314,16 @@ def generate(prop, rng, tier):
         elif r < 0.78:
             steps.append({"op": "bc_scalar", "obj": rng.randrange(64), "scalar": rng.choice([5.0, -1.5, 0.0]),
                           "as": rng.choice(["float", "int", "np", "0d"])})
+        elif r < 0.80:
+            n_c = rng.randint(1, 4)
+            fk = rng.choice(["scalar", "scalar", "series", "int"])
+            n_f = rng.randint(1, 3)
+            steps.append({"op": "lc", "calls": [rng.choice(["scale", "shift"]) for _ in range(rng.randint(1, 3))],
+                          "cycle_keys": rng.sample([0, 1, 2, 3, 7], n_c), "cycle_level": rng.choice(["cycle_number", None, "c"]),
+                          "from": [float(rng.randint(-300, 100)) for _ in range(n_c)], "to": [float(rng.randint(20, 400)) for _ in range(n_c)],
+                          "layout": rng.choice(["from_to", "from_to", "to_from_extra", "range_mean"]),
+                          "factor_kind": fk, "factor": [rng.choice([2.0, -1.5, 0.5, 3.0, 10.0]) for _ in range(n_f)],
+                          "factor_keys": rng.sample([3, 5, 8, 13], n_f), "factor_level": rng.choice(["element_id", "node"])})
         elif r < 0.88:
             steps.append({"op": "bc_array", "obj": rng.randrange(64), "len": rng.choice([1, 2, 3, "match", "match"]),
                           "as": rng.choice(["ndarray", "ndarray", "list", "tuple"])})
@@ -333,7 +344,9 @@ def generate(prop, rng, tier):
                           "calc": rng.choice(["cycles", "cycles", "load"]),
                           "cycles": [rng.choice([1e4, 1e5, 5e5, 1e6, 2e6, 1e7, 1e8]) for _ in range(n_sc)],
                           "load_level_name": rng.choice(["scenario", "scenario", None]),
-                          "element_level_name": rng.choice(["element_id", "element_id", "scenario_x"])})
+                          "element_level_name": rng.choice(["element_id", "element_id", "scenario_x"]),
+                          # loads and cycle numbers are whole numbers here: any numeric dtype holds them
+                          "given_dtype": rng.choice(["float64", "float64", "int64", "int32", "uint64", "uint32", "float32"])})
     tr = {"world": NAME, "pool": pool, "steps": steps, "uuid_seed": rng.randint(1, 10 ** 6)}
     if rng.random() < 0.35:
         # mean stress transformation with ONE kept Haigh diagram object and ONE kept collective object
@@ -523,6 +536,11 @@ def _run(trace, out, log):
             if not _wc_step(st, k, out, log):
                 return
             out.count("op:derived_calculation")
+            continue
+        if op == "lc":
+            if not _lc_step(st, k, out, log):
+                return
+            out.count("op:collective_scale_shift")
             continue
         i = int(st["obj"]) % len(pool)
         obj = pool[i]
@@ -976,6 +994,10 @@ def _wc_step(st, k, out, log):
     calc = st.get("calc", "cycles")
     given = st["loads"] if calc == "cycles" else st["cycles"]
     load = pd.Series([float(x) for x in given], index=pd.Index(list(st["scenarios"]), name=st["load_level_name"]), name="load")
+    gd = st.get("given_dtype") or "float64"
+    if gd != "float64" and all(float(x) == int(x) and 0 <= x < 2 ** 31 for x in given):
+        load = load.astype(gd)
+        out.count("dtype:given_" + gd)
     wc_snap, load_snap = snapshot(wc), snapshot(load)
     try:
         if fp == 0.5 and native_fp == 0.5 and st.get("fp") is None:
@@ -1029,6 +1051,78 @@ def _wc_step(st, k, out, log):
         out.violate("B4-derived-calculation", "coverage", {"step": k, "rows": len(rows["rows"]), "want": len(el) * len(st["scenarios"])})
         return False
     log.add(k, "wc", rows["rows"], rows["values"])
+    return True
+
+
+def _lc_step(st, k, out, log):
+    """Scaling / shifting a load collective (an accessor calculation resting on self.broadcast()):
+    ONE kept collective frame is the operand of one to three calls; after every call it must still hold what
+    its owner put there, and every result row carries the original's from/to for its cycle, scaled or
+    shifted by the factor for its element."""
+    ck = [int(x) for x in st["cycle_keys"]]
+    fr, to = [float(x) for x in st["from"]], [float(x) for x in st["to"]]
+    layout = st.get("layout", "from_to")
+    idx = pd.Index(ck, name=st.get("cycle_level"))
+    if layout == "range_mean":
+        coll = pd.DataFrame({"range": [abs(b - a) for a, b in zip(fr, to)], "mean": [(a + b) / 2.0 for a, b in zip(fr, to)]}, index=idx)
+        # the accessor's reading of range/mean: from = mean - range/2, to = mean + range/2
+        fr, to = [m - r / 2.0 for r, m in zip(coll["range"], coll["mean"])], [m + r / 2.0 for r, m in zip(coll["range"], coll["mean"])]
+    elif layout == "to_from_extra":
+        coll = pd.DataFrame({"to": to, "note": [1.0] * len(ck), "from": fr}, index=idx)
+    else:
+        coll = pd.DataFrame({"from": fr, "to": to}, index=idx)
+    fk = st.get("factor_kind", "scalar")
+    fvals = [float(x) for x in st["factor"]]
+    if fk == "series":
+        fkeys = [int(x) for x in st["factor_keys"]][:len(fvals)]
+        factor = pd.Series(fvals[:len(fkeys)], index=pd.Index(fkeys, name=st.get("factor_level", "element_id")), name="f")
+        per = dict(zip(fkeys, fvals))
+    elif fk == "int" and fvals[0] == int(fvals[0]):
+        factor, per = int(fvals[0]), None
+    else:
+        factor, per = fvals[0], None
+    coll_snap = snapshot(coll)
+    f_snap = snapshot(factor) if isinstance(factor, pd.Series) else None
+    for call in st.get("calls", ["scale"]):
+        try:
+            res = (coll.load_collective.scale(factor) if call == "scale" else coll.load_collective.shift(factor)).to_pandas()
+        except Exception as e:   # noqa
+            out.violate("exception", "derived:collective_" + call, {"step": k, "type": type(e).__name__, "msg": str(e)[:200]})
+            return False
+        if not snap_equal(snapshot(coll), coll_snap) or (f_snap is not None and not snap_equal(snapshot(factor), f_snap)):
+            out.violate("B1-operands-unmodified", "derived:collective", {"step": k, "call": call, "layout": layout, "factor": fk})
+            return False
+        try:
+            names = list(res.index.names)
+            rows = [t if isinstance(t, tuple) else (t,) for t in res.index.tolist()]
+            pc = names.index(st.get("cycle_level"))
+            got_from, got_to = [float(x) for x in res["from"]], [float(x) for x in res["to"]]
+        except Exception as e:   # noqa
+            out.violate("B4-derived-calculation", "collective:shape", {"step": k, "call": call, "type": type(e).__name__, "msg": str(e)[:200]})
+            return False
+        seen = set()
+        for r, gf, gt in zip(rows, got_from, got_to):
+            c = int(r[pc])
+            if per is None:
+                f, key = float(factor), (c,)
+            else:
+                e = [int(x) for q, x in enumerate(r) if q != pc][0]
+                f, key = per.get(e), (c, e)
+            if c not in ck or f is None:
+                out.violate("B4-derived-calculation", "collective:keys", {"step": k, "call": call, "row": list(map(_py, r))})
+                return False
+            seen.add(key)
+            q = ck.index(c)
+            wf, wt = (fr[q] * f, to[q] * f) if call == "scale" else (fr[q] + f, to[q] + f)
+            if abs(gf - wf) > 1e-9 * max(1.0, abs(wf)) or abs(gt - wt) > 1e-9 * max(1.0, abs(wt)):
+                out.violate("B4-derived-calculation", "collective:values",
+                            {"step": k, "call": call, "row": list(map(_py, r)), "got": [gf, gt], "want": [wf, wt], "layout": layout})
+                return False
+        want_n = len(ck) * (len(per) if per is not None else 1)
+        if len(seen) != want_n or len(rows) != want_n:
+            out.violate("B4-derived-calculation", "collective:coverage", {"step": k, "call": call, "rows": len(rows), "want": want_n})
+            return False
+        log.add(k, "lc", call, [list(map(_py, r)) for r in rows], got_from, got_to)
     return True
 
 
